@@ -22,7 +22,7 @@ sys.path.insert(0, ROOT)
 # deliberately broken tree can never overwrite the evidence of the unchanged tree.
 OUT = os.environ.get('H2VC_OUT_DIR') or ROOT
 
-from h2vc import spec, prove, deps_model, extract, hdrmodel  # noqa
+from h2vc import spec, prove, deps_model, extract, hdrmodel, strmodel  # noqa
 
 ASSUMED_SEMANTICS = [
     'Python ints are mathematical integers (true in CPython)',
